@@ -218,5 +218,5 @@ func predReexec(c reexecCase, o *evid.Obs) error {
 }
 
 func addReexec(r *evid.Run) {
-	evid.Add(r, evid.Prop[reexecCase]{Name: "reexec", Quick: 1200, Thorough: 6000, Gen: genReexec, Pred: predReexec})
+	evid.Add(r, evid.Prop[reexecCase]{Name: "reexec", Quick: 1000, Thorough: 6000, Gen: genReexec, Pred: predReexec})
 }
